@@ -53,6 +53,9 @@ CHECKS = {
  'C14': dict(cat='exploration', engine='E2', tech='bounded-exhaustive enumeration of generating parameters x sampling grids x limit pairs through the raw and isotherm entry points; closed-form expectations',
    text='BET (n_m x C x 24 grids x cross-sections), Langmuir (n_m x K), t-plot (slope x intercept on the 4 built-in thickness models and a callable), alpha-s (a curve against itself and scaled copies), DR/DA (volume x energy x exponent 1..3, fixed and searched) on exactly generated data; for every grid the automatic window, every pair of 6 off-grid limit positions, one-sided and zero limits: recovered parameters, selected index window (exactly the points strictly inside the limits), refusal below three points with CalculationError, inputs unchanged; automatic BET window on data with an interior maximum of n(1-p); isotherm entry points in three stored representations.',
    note='Limits never coincide with a data pressure; both readings of where n(1-p) stops increasing are accepted.', ref='§4 C14'),
+ 'C16': dict(cat='exploration', engine='E2', tech='bounded-exhaustive enumeration of method x pore/meniscus geometry x thickness/Kelvin model x pressure grid x volume profile; independent Kelvin equation and conservation identities',
+   text='The three classical methods x their pore geometries x 3 meniscus geometries x 4 thickness models (incl. zero and a callable) x Kelvin/Kelvin-KJS x 4 pressure grids (one up to p/p0 = 0.9995) x 3 adsorbate property sets x 6 volume profiles through the raw functions: widths = 2(r_K + t) from an independently written Kelvin equation at one end of each interval and increasing, distribution x width increments = pore volumes, with zero thickness volumes = successive volume changes and their sum, single step -> single peak inside the Kelvin widths of the step, inputs unchanged; psd_mesoporous on isotherms (5 method/geometry pairs x 4 limit settings x both branches x 3 adsorbates): used index window, widths, cumulative curve end and steps, and analyses before/after the adsorbate is re-defined.',
+   note='Kelvin geometry factors per meniscus as pinned by the project reference values; volumes for non-zero thickness are not fixed by the property.', ref='§4 C16'),
 }
 
 def main():
